@@ -184,6 +184,7 @@ def handle (crude : Bool) (line : String) : String :=
   | ["dw", t] => toString (displayWidth (cwOf crude) (parseText t))
   | ["cw", c] => toString (cwOf crude (Char.ofNat (c.toNat?.getD 0)))
   | ["strip", t] => showText (stripAnsi (parseText t))
+  | ["seqsafe", hy, t] => if seqSafeB (hy == "1") (parseText t) then "1" else "0"
   | ["words", sep, t, opps] =>
     let text := parseText t
     let env := mkEnv crude [(stripAnsi text, parseNats opps)]
